@@ -15,6 +15,8 @@ What runs is the REAL code of the working tree:
                       -> util.append / db.util.encode / move / decode; bytes cross in 7-byte chunks for
                       every third job, so framing and the lock protocol are on the path
   * Remove / Reset / Trace / Next / AddTarget / Register   dawgie.db.remove / reset / trace / next / add / update
+  * Worm              dawgie.db.tools.worm.consume(run, target, task, alg, sv, value) with None for what is not given
+                      (run id 0 is a given run id); the tool closes the database, the harness opens it again
   * Reopen            DBI().close(); DBI().open()
   * Bump              no call: the harness' algorithm objects declare another version from now on
 The optional environment puts the history on a database that is not empty and whose numbers are not single
@@ -35,6 +37,10 @@ DELTA against the previous snapshot of the real tables (entries added / deleted 
 appended or rewritten, primary entries added / deleted with the content and sealed version unpickled from
 the blob file each names).  TLC rebuilds the state from the deltas and evaluates every clause; nothing is
 judged here.
+
+After every load the harness edits the object it was handed in place (it is the caller's own copy); histories
+whose environment says "big" store values padded with 70 KiB of common bytes in front of the content, so large
+values differ only in their tail.
 
 VERIF_STORE_MUTANT=<name> applies an in-memory mutant of the real functions (binding demonstration only;
 never written to the repository): noversion | nextlen | appendgap | loadlowest | prefix | resetfallback
@@ -66,11 +72,16 @@ import dawgie.db.shelve  # noqa: E402
 import dawgie.db.shelve.util  # noqa: E402
 import dawgie.db.util  # noqa: E402
 import dawgie.util  # noqa: E402
+import dawgie.db.shelve.comms  # noqa: E402
+import dawgie.db.tools.worm as worm  # noqa: E402
 from dawgie.db.shelve.state import DBI  # noqa: E402
+
+worm.dawgie = dawgie  # the tool imports dawgie in its __main__ block only
+dawgie.db.shelve.comms.DBSerializer.open = staticmethod(lambda: None)  # environment: no listening socket (db.open of the worm tool)
 
 TABLES = ['target', 'task', 'alg', 'state', 'value']
 UNTOUCHED = -1
-_REAL_SUBPROCESS = dawgie.db.util.subprocess
+_REAL_SUBPROCESS = getattr(dawgie.db.util, 'subprocess', None)  # a tree that does not spawn programs has no such name
 
 
 # ------------------------------------------------------------------ environment: digest programs
@@ -96,9 +107,16 @@ def vcode(ver):
     return ver.design * 10000 + ver.impl * 100 + ver.bugfix
 
 
+BIG = [False]  # this history stores large values
+PAD = bytes(range(256)) * 280  # 70 KiB, the same in every value: large values differ only in their tail
+EDITED = -9  # what the harness writes into an object a load handed to it
+
+
 class Val(dawgie.Value):
     def __init__(self, content=UNTOUCHED, ver=10000):
         dawgie.Value.__init__(self)
+        if BIG[0] and content != UNTOUCHED:
+            self.pad = PAD  # pickled first: content and sealed version come after 70 KiB of common bytes
         self.content = content
         self._version_ = vtuple(ver)
 
@@ -292,6 +310,7 @@ def args_of(e, cur):
     return {
         'tgt': e.get('tgt', ''),
         'task': e.get('task', ''),
+        'tks': sorted(e.get('tks') or ([e['task']] if e.get('ev') == 'Trace' and e.get('task') else [])),
         'a': e.get('a', ''),
         's': e.get('s', ''),
         'v': e.get('v', ''),
@@ -330,6 +349,10 @@ def perform(e, cur):
                 obs['res'] = c if isinstance(c, int) else -2
                 seal = val.__dict__.get('_version_seal_')
                 obs['seal'] = vcode(seal) if seal is not None else 0
+                # the loaded object belongs to the caller: a reader may edit it in place; what is stored must not change
+                val.content = EDITED
+                if hasattr(val, 'pad'):
+                    val.pad = b''
         elif ev == 'Remove':
             dawgie.db.remove(int(e['run']), e['tgt'], e['task'], e['a'], e['s'], e['v'])
         elif ev == 'Reset':
@@ -342,9 +365,15 @@ def perform(e, cur):
                 obs['sv1'] = vcode(alg.state_vectors()[0]._get_ver())  # pylint: disable=protected-access
                 cur['alg'], cur['sv'] = obs['av1'], obs['sv1']
         elif ev == 'Trace':
-            tan = e['task'] + '.' + e['a']
-            result = dawgie.db.trace([tan])
-            obs['rep'] = [{'tn': tn, 'run': int(per[tan])} for tn, per in sorted(result.items()) if tan in per]
+            tks = sorted(e.get('tks') or [e['task']])
+            result = dawgie.db.trace([t + '.' + e['a'] for t in tks])  # ONE call naming the algorithm under every task
+            obs['rep'] = [{'task': t, 'tn': tn, 'run': int(per[t + '.' + e['a']])} for tn, per in sorted(result.items()) for t in tks if t + '.' + e['a'] in per]
+        elif ev == 'Worm':
+            try:
+                worm.consume(*[None if x in ('', -1) else x for x in (int(e['run']), e['tgt'], e['task'], e['a'], e['s'], e['v'])])
+            finally:
+                if not DBI().is_open:  # the tool closes the database when it is done
+                    DBI().open()
         elif ev == 'Next':
             obs['nxt'] = int(dawgie.db.next())
         elif ev == 'AddTarget':
@@ -430,7 +459,8 @@ def run_job(job, base):
     dawgie.context.data_stg = os.path.join(d, 'stg')
     if dawgie.context.db_lock:
         dawgie.context.unlock_db()
-    dawgie.db.util.subprocess = _REAL_SUBPROCESS if job.get('real_digest') else _STUB_SUBPROCESS
+    if _REAL_SUBPROCESS is not None:
+        dawgie.db.util.subprocess = _REAL_SUBPROCESS if job.get('real_digest') else _STUB_SUBPROCESS
     chunk = int(job.get('chunk', 0))
     bridge.install(chunker=bridge.fixed_chunks(chunk) if chunk else None)
     DBI().close()
@@ -440,6 +470,7 @@ def run_job(job, base):
     # knows before the history starts (targets added, engine elements registered - real db.add / db.update calls,
     # no data), and which real run ids stand for the model's runs (a monotone map)
     env = job.get('env') or {}
+    BIG[0] = bool(env.get('big'))
     for tn in env.get('targets', []):
         dawgie.db.add(tn)
     for r in env.get('regs', []):
@@ -461,7 +492,7 @@ def run_job(job, base):
         args = args_of(e, cur)
         obs = perform(e, cur)
         done.append(dict(args, ev=e['ev']))
-        steps.append({'ev': e['ev'], 'args': args, 'st': proj.delta(cur, e['ev'] in ('Update', 'Remove', 'Reopen')), 'obs': obs})
+        steps.append({'ev': e['ev'], 'args': args, 'st': proj.delta(cur, e['ev'] in ('Update', 'Remove', 'Reopen', 'Worm')), 'obs': obs})
 
     for e in job['events']:
         if int(e.get('run', 0)) in runmap:
@@ -476,7 +507,7 @@ def run_job(job, base):
             play(e)
     DBI().close()
     shutil.rmtree(d, True)
-    return {'tid': job['id'], 'metric_vals': METRIC_VALS, 'chunk': chunk, 'skipped': len(skipped), 'env': {'targets': env.get('targets', []), 'regs': len(env.get('regs', [])), 'runmap': [[k, v] for k, v in sorted(runmap.items())]}, 'steps': steps}
+    return {'tid': job['id'], 'metric_vals': METRIC_VALS, 'chunk': chunk, 'skipped': len(skipped), 'env': {'targets': env.get('targets', []), 'regs': len(env.get('regs', [])), 'big': bool(env.get('big')), 'runmap': [[k, v] for k, v in sorted(runmap.items())]}, 'steps': steps}
 
 
 METRIC_VALS = list(dawgie.util.MetricStateVector(dawgie.METRIC(0, 0, 0, 0, 0, 0, 0), dawgie.METRIC(0, 0, 0, 0, 0, 0, 0)).keys())
